@@ -97,6 +97,17 @@ def gen(rng, tier):
              "raw_provs": {"pa": {"in": "always", "out": out_schema, "beh": "echo"},
                            "pb": {"in": in_schema, "out": "always", "beh": "echo"}}}
         cases.append(c)
+    # a provider with ONE static schema (inputs and outputs) whose `required` list is not sorted, opened in an import with the
+    # required inputs missing, the property overridden by the importer: nothing may reorder the provider's own list, so the
+    # second evaluation reports what the first did
+    for i, req in enumerate((["zone", "account"], ["z", "m", "a"], ["b", "a"], ["k2", "k10", "k1"])):
+        sch = {"t": "object", "props": {k: "string" for k in req}, "required": list(req)}
+        for over in (("obj", []), ("obj", [("x", ("num", "1"))]), None):
+            envs = {"lib": {"imports": [], "values": [("o", ("open", "pst", ("obj", [])))]},
+                    "root": {"imports": [("lib", True)], "values": ([("o", over)] if over else []) + [("p", ("open", "pst", ("obj", [("q", ("num", "1"))])))]}}
+            c = G.case_from_graph(envs, "root")
+            c.update({"provs": {}, "model": False, "reps": reps, "check": i % 2 == 0, "raw_provs": {"pst": {"in": sch, "out": sch, "beh": "echo"}}})
+            cases.append(c)
     # an unknown imported value overridden 1..5 levels deep with 2..3 sibling keys at the bottom: expression metadata
     # (base access chains in Exprs) must be the same on every run
     for depth in range(1, 6):
